@@ -86,7 +86,7 @@ def main():
             fails = [] if rc2 == 0 else fails
         res["existing_tests_pass"] = not fails
         res["existing_tests_failures"] = fails[:5]
-        rc, out = sh(f"sh {vdir}/demo.sh {wt} || bash {vdir}/demo.sh {wt}", cwd=wt, timeout=1800)
+        rc, out = sh(f"bash {vdir}/demo.sh {wt}", cwd=wt, timeout=1800)
         res["demo_fails_with_change"] = rc != 0
         sh("git checkout -- . ", cwd=wt)
         rc, out = sh(f"bash {vdir}/demo.sh {wt}", cwd=wt, timeout=1800)
